@@ -4,7 +4,7 @@ from verif.core import Infra
 META = dict(
     technique="TLC exhaustive model check of TimeoutHandler.tla (token channel, wrapped handler goroutine mutating ctx.Response before and after the timeout, timer vs. done select, ctx replacement, self-inflicted TimeoutError) + TLC trace validation of hook-recorded executions of the real server (B2) + black-box comparison of every response the client receives",
     design_ref="DESIGN.md §4 C16",
-    text="The design (one TLA+ action per channel operation / select branch of TimeoutWithCodeHandler and per step of the serve loop's timeout hand-off: acquire fresh ctx, copy timeoutResponse, write, reset) is model-checked exhaustively: every response on the wire equals the response decided for its request (timeout response, 429, or the handler's own final response), nothing a handler writes after its timeout reaches any response, tokens and running wrapped handlers never exceed Concurrency, 429 only from an exhausted token channel, an abandoned ctx is never used by a serve loop nor pooled again. Real executions (handlers that keep mutating status, a marker header and the body after the timeout; GET and HEAD; pipelined requests; handlers calling TimeoutErrorWithCode / TimeoutErrorWithResponse themselves - the latter with a Response of their own, with &ctx.Response, and with an acquired Response that is afterwards overwritten in place, appended to, released and re-acquired by somebody else - and writing on before and after they return; timed-out requests that close their connection through Connection: close, HTTP/1.0 without keep-alive or Server.DisableKeepalive, followed by new connections on the same Server while the late handler is still writing (partly under GOMAXPROCS(1) so that sync.Pool hands a released ctx straight to the next connection); one Server entered through Serve, ServeConn, two listeners, or ServeConn followed by Serve, the second entry point being started while a wrapped handler holds a token; timeouts 0.3-3 ms; Concurrency 1 and 2) are recorded at the hooks of TimeoutWithCodeHandler and the serve loop, with the content of the real ctx.Response that was serialised, and must be behaviours of the same spec; the number of concurrently running wrapped handlers is counted in the harness-owned handler across all entry points and through the token events; the client parses every response on every connection and it must equal what the server logged for that request and carry no foreign or late marker.",
+    text="The design (one TLA+ action per channel operation / select branch of TimeoutWithCodeHandler and per step of the serve loop's timeout hand-off: acquire fresh ctx, copy timeoutResponse, write, reset) is model-checked exhaustively: every response on the wire equals the response decided for its request (timeout response, 429, or the handler's own final response), nothing a handler writes after its timeout reaches any response, tokens and running wrapped handlers never exceed Concurrency, 429 only from an exhausted token channel, an abandoned ctx is never used by a serve loop nor pooled again. Real executions (handlers that keep mutating status, a marker header and the body after the timeout; GET and HEAD; pipelined requests; handlers calling TimeoutErrorWithCode / TimeoutErrorWithResponse themselves - the latter with a Response of their own, with &ctx.Response, and with an acquired Response that is afterwards overwritten in place, appended to, released and re-acquired by somebody else - and writing on before and after they return, also asking for a hijack (ctx.Hijack with and without HijackSetNoResponse) after the TimeoutError* call, which must be ignored; timed-out requests that close their connection through Connection: close, HTTP/1.0 without keep-alive or Server.DisableKeepalive, followed by new connections on the same Server while the late handler is still writing (partly under GOMAXPROCS(1) so that sync.Pool hands a released ctx straight to the next connection); one Server entered through Serve, ServeConn, two listeners, or ServeConn followed by Serve, the second entry point being started while a wrapped handler holds a token; timeouts 0.3-3 ms; Concurrency 1 and 2) are recorded at the hooks of TimeoutWithCodeHandler and the serve loop, with the content of the real ctx.Response that was serialised, and must be behaviours of the same spec; the number of concurrently running wrapped handlers is counted in the harness-owned handler across all entry points and through the token events; the client parses every response on every connection and it must equal what the server logged for that request and carry no foreign or late marker.",
     note="Trusted: hook placement (token operations are made atomic with their log line by holding the harness log mutex between the hook before and the hook after the channel operation), the harness's response classifier, TLC, Go runtime. Only ctx.Response mutations are modelled (a late handler that writes to the net.Conn directly or reads a streamed request body is outside C16). Real-code schedules are sampled.",
 )
 
